@@ -40,7 +40,9 @@ func Judge(prop string, p *sdl.Program, cfg map[string]string, runs []*Obs) []Vi
 	case "C03":
 		perRun(func(o *Obs) []Violation { return w.CheckIdentity(o, "C03") })
 	case "C06":
-		perRun(func(o *Obs) []Violation { return w.CheckTypeInjection(out, o) })
+		perRun(func(o *Obs) []Violation {
+			return append(w.CheckTypeInjection(out, o), w.CheckQueryByInterface(o)...)
+		})
 	case "C07":
 		perRun(func(o *Obs) []Violation {
 			if !faultFree(o) {
